@@ -135,6 +135,15 @@ Definition eku_gate (c : tsa_cert) : bool :=
   | None => tc_is_ca c
   end.
 
+(* verify_time_stamp, before the generic profile check: the leaf must carry id-kp-timeStamping
+   (`extended_key_usage().ok().flatten().map(|e| e.value.time_stamping).unwrap_or(false)`) *)
+Definition has_ts_eku (c : tsa_cert) : bool :=
+  match tc_eku c with Some e => eku_time_stamping e | None => false end.
+
+(* the same test for OCSP responders (cose/ocsp.rs has_ocsp_signing_eku) *)
+Definition has_ocsp_eku (c : tsa_cert) : bool :=
+  match tc_eku c with Some e => eku_ocsp_signing e | None => false end.
+
 Definition valid_at (nb na t : Z) : bool := (nb <=? t) && (t <=? na).
 
 Section Oracles.
@@ -160,7 +169,6 @@ Section Oracles.
          end.
 
   Inductive step :=
-  | Skip                                            (* `continue` before anything is logged: certificate not embedded *)
   | Fail (e : ts_err) (l : list log_item)
   | Abort (e : ts_err)                              (* `?`: returns without appending the current log *)
   | Done (t : tst_info) (l : list log_item).
@@ -208,7 +216,7 @@ Section Oracles.
 
   Definition check_signer (tk : token) (data : bytes) (verify_trust : bool) (s : signer_info) : step :=
     match si_cert s with
-    | None => Skip
+    | None => Fail EUntrusted [LTs TsUntrusted]      (* "timestamp signer certificate not found" (fix 5b12435f8) *)
     | Some c =>
       match tk_tst tk with
       | None => Fail EInvalidData [LTs TsMalformed]
@@ -233,6 +241,7 @@ Section Oracles.
                      if negb (bytes_eqb (H h data) (ti_imprint t)) then Fail EInvalidData [LTs TsMismatch]
                      else if verify_trust then
                        if negb (tc_x509_ok c) then Abort EDecode
+                       else if negb (has_ts_eku c) then Fail EUntrusted [LTs TsValidated; LTs TsUntrusted]   (* fix a6060c320 *)
                        else match tsa_profile c st with
                             | Some cc => Fail EUntrusted [LTs TsValidated; LCred cc; LTs TsUntrusted]
                             | None =>
@@ -247,14 +256,14 @@ Section Oracles.
       end
     end.
 
-  (* "Look for any valid signer": the log that survives is the one of the last SignerInfo visited *)
+  (* "Look for any valid signer": the log that survives is the one of the last SignerInfo visited
+     (every visited SignerInfo now logs something: the bare `continue` for a missing certificate is gone) *)
   Fixpoint signer_loop (tk : token) (data : bytes) (vt : bool) (ss : list signer_info) (last : ts_err) (cur : list log_item)
     : result tst_info * list log_item :=
     match ss with
     | [] => (Err last, cur)
     | s :: r =>
       match check_signer tk data vt s with
-      | Skip => signer_loop tk data vt r last []
       | Fail e l => signer_loop tk data vt r e l
       | Abort e => (Err e, [])
       | Done t l => (Ok t, l)
@@ -353,11 +362,13 @@ End Oracles.
 (* the order in which verify_time_stamp mentions its status constants (tie to the source: Generated/C36_facts.v) *)
 Definition model_status_sequence : list ts_code :=
   [TsMalformed; TsUntrusted; TsUntrusted;                                     (* no SignedData; no certificates; odd certificate choice *)
+   TsUntrusted;                                                               (* signer certificate not embedded *)
    TsMalformed;                                                               (* no TstInfo *)
    TsMalformed; TsMalformed; TsMalformed; TsMalformed; TsMalformed; TsMismatch; TsMalformed;   (* message-digest attribute *)
    TsMalformed; TsMalformed;                                                  (* TBS *)
    TsMalformed; TsMalformed; TsMalformed;                                     (* hash alg, key, key alg *)
-   TsUntrusted; TsOutsideValidity; TsUntrusted; TsValidated; TsMismatch; TsUntrusted; TsUntrusted; TsTrusted].
+   TsUntrusted; TsOutsideValidity; TsUntrusted; TsValidated; TsMismatch;
+   TsUntrusted; TsUntrusted; TsUntrusted; TsTrusted].                         (* not a TSA certificate; profile; trust *)
 
 (* ---------------------------------------------------------------------------------------------------------------
    concrete oracles for the correspondence run (vm_compute): "hash" = identity tagged with the algorithm,
